@@ -256,6 +256,9 @@ def tag_is_class_instr(b, tr, operand):
 
 def run(ctx, chk):
     _run_own(ctx, chk)
+    # a decoder that takes a field value for "field absent" refuses specification-conformant bytes carrying that value
+    import rules_c01
+    rules_c01.presence_by_value(ctx, chk, prefix="C03-d")
     # APDU framing of every command: the length field's forms are part of the specified wire layout
     # (chapter 3: one byte below 0xFF, otherwise FF + 2 bytes little endian) - the Adpu instances of the
     # C16-b / C04-d clauses are included as C03-c
